@@ -123,6 +123,8 @@ def build_case(rng):
             g = with_failure(g, path, n["name"], 500)
     rc = {"runner": rng.choice(["sync", "async"]), "inputs": inputs, "error_handling": rng.choice(["continue", "continue", "raise"]),
           "max_iterations": 40, "events": rng.choice([True, "async"]), "sched_seed": rng.randint(0, 10**6), "fresh_rank": True}
+    if rc["runner"] == "async" and rng.random() < 0.4:
+        rc["max_concurrency"] = rng.choice([1, 2, 2, 3])       # a bounded pool (runner.map: worker pool; run: shared limiter)
     if not run_map and rng.random() < 0.25:
         outs = [o for nn in g["nodes"] for o in gen.iface(nn)[1]]
         if outs:
@@ -221,7 +223,9 @@ def run(ctx):
             dist["tree_checked"] = dist.get("tree_checked", 0) + 1
         # top-level runner.map: a map run span holding one run span per input combination (EventsTree.tree_map_top, C12_model_top_map)
         if (rc.get("map") and not rc.get("cache") and not rc.get("select") and obs["status"] in ("mapped", "raised")
-                and not has_kind(g, ("interrupt",))):
+                and not has_kind(g, ("interrupt",))
+                # (a bounded pool in raise mode stops taking items at the first failure: which items started depends on the schedule)
+                and not (rc.get("max_concurrency") and rc["error_handling"] == "raise")):
             engine.define_case(batch, n, N, g, rc)
             d = pdl.graph_depth(g) + 1
             ov = c_list([c_pos(N(x)) for x in rc["map"]["over"]])
